@@ -1,0 +1,10 @@
+//go:build !verif
+
+package converter
+
+import "net/http"
+
+/*
+Verification hook: no-op unless compiled with build tag 'verif' (see verif_yield_on.go).
+*/
+func verifYield(w http.ResponseWriter, point string) {}
